@@ -317,8 +317,8 @@ def c15(tier):
 # ------------------------------------------------------------------------------------------- C09
 @prop("C09",
       functions=["gridDistance", "gridPathCellsSize", "cellToLocalIjk", "cellToLocalIj", "localIjToCell", "localIjkToCell", "ijkDistance", "ijToIjk", "ijkToIj", "_h3ToFaceIjkWithInitializedFijk", "_getBaseCellDirection", "h3NeighborRotations"],
-      bounds={"quick": "a=b, resolution mismatch (any valid cell of another resolution), mode != 0: all valid cells of res 0,1,8,15; neighbours at distance 1: all neighbour pairs of res 0-3; symmetry: every pair of res-0 cells",
-              "thorough": "neighbours: res 0-15 as far as they finish; symmetry and the Lipschitz half of the graph-distance characterisation: every pair of cells of res 0-2; IJ round trip res 0-2, |i|,|j| <= 64"},
+      bounds={"quick": "a=b, resolution mismatch (any valid cell of another resolution), mode != 0: all valid cells of res 0,1,4; neighbours at distance 1: all neighbour pairs of res 0-3; symmetry: every pair of cells of res 0 and of res 1; Lipschitz half res 0; IJ round trip res 0-2, |i|,|j| <= 64",
+              "thorough": "neighbours: res 0-8 and 15 as far as they finish; symmetry and the Lipschitz half of the graph-distance characterisation: every pair of cells of res 0-2; IJ round trip res 0-4, |i|,|j| <= 64 (res 2: <= 400)"},
       outside="graph-distance equality beyond the local characterisation; IJ round trips above res 2 / beyond 2^6 (SAT cannot invert the coordinate arithmetic); unit-step clause",
       assumptions=["L-UP7 model for _upAp7Checked/_upAp7rChecked in the IJ round-trip job (lemma proved in the same run)"],
       stubs=["_upAp7*, _upAp7r* -> integer model (IJRT only)"])
@@ -326,24 +326,28 @@ def c09(tier):
     js = []
     LL = {"cellToLocalIjk.0": 7, "cellToLocalIjk.1": 7, "cellToLocalIjk.2": 7, "cellToLocalIjk.3": 7, "cellToLocalIjk.4": 7, "cellToLocalIjk.5": 7,
           "localIjkToCell.1": 7, "localIjkToCell.2": 7, "localIjkToCell.3": 7, "localIjkToCell.4": 7, "localIjkToCell.5": 7, "localIjkToCell.6": 7}
-    for r in (0, 1, 8, 15):
-        j = J("basic_r%d" % r, "C09_dist.c", ["-DBASIC", "-DRES=%d" % r], unwind=r + 2, us=LL, est=20 + 5 * r, bound="all valid cells of res %d" % r)
+    for r in (0, 1, 4):
+        j = J("basic_r%d" % r, "C09_dist.c", ["-DBASIC", "-DRES=%d" % r], unwind=17, us=LL, est=60 + 5 * r, mem="M", bound="all valid cells of res %d (mismatching cell: any valid cell of any other resolution)" % r)
         js += with_witness(j) if r == 1 else [j]
     for r in ALLRES:
+        if r > 8 and r != 15:
+            continue
         t = "quick" if r <= 3 else "thorough"
         j = J("nbr_r%d" % r, "C09_dist.c", ["-DNBR", "-DRES=%d" % r], unwind=r + 2, us=LL, est=100 + 50 * r, tier=t, mem="M", timeout=3000, core=(r <= 5), bound="all neighbour pairs of res %d" % r)
         js += with_witness(j, tier=t) if r == 1 else [j]
     for r in (0, 1, 2):
-        t = "quick" if r == 0 else "thorough"
+        t = "quick" if r <= 1 else "thorough"
         j = J("sym_r%d" % r, "C09_dist.c", ["-DSYM", "-DRES=%d" % r], unwind=r + 2, us=LL, est=100 + 500 * r, tier=t, mem="M", timeout=3400, bound="every pair of cells of res %d" % r)
         js += with_witness(j, tier=t) if r == 0 else [j]
-        j = J("lip_r%d" % r, "C09_dist.c", ["-DLIP", "-DRES=%d" % r], unwind=r + 2, us=LL, est=200 + 600 * r, tier="thorough", mem="M", timeout=3400, bound="every (a, b, direction) of res %d" % r)
-        js += with_witness(j, tier="thorough") if r == 0 else [j]
-    js += [dict(j, tier="thorough") for j in up7_lemma(10, checked=True)]
-    for r in (0, 1, 2):
-        j = J("ijrt_r%d" % r, "C09_dist.c", ["-DIJRT", "-DRES=%d" % r, "-DIJB=64", "-DUPB=(1<<10)"], unwind=r + 2, us=dict(LL, **{"localIjkToCell.0": r + 2}), unit_defs=UP7_DEFS_CHK, est=300 + 300 * r, tier="thorough", mem="M", timeout=3400, core=False,
+        j = J("lip_r%d" % r, "C09_dist.c", ["-DLIP", "-DRES=%d" % r], unwind=r + 2, us=LL, est=200 + 600 * r, tier=("quick" if r == 0 else "thorough"), mem="M", timeout=3400, bound="every (a, b, direction) of res %d" % r)
+        js += with_witness(j, tier="quick") if r == 0 else [j]
+    js += up7_lemma(10, checked=True)
+    for r in (0, 1, 2, 3, 4):
+        t = "quick" if r <= 2 else "thorough"
+        j = J("ijrt_r%d" % r, "C09_dist.c", ["-DIJRT", "-DRES=%d" % r, "-DIJB=64", "-DUPB=(1<<10)"], unwind=r + 2, us=dict(LL, **{"localIjkToCell.0": r + 2}), unit_defs=UP7_DEFS_CHK, est=30 + 50 * r, tier=t, mem="M", timeout=3400, core=(r <= 2),
               bound="all origins of res %d, |i|,|j| <= 64" % r)
-        js += with_witness(j, tier="thorough") if r == 1 else [j]
+        js += with_witness(j, tier=t) if r == 1 else [j]
+    js.append(J("ijrt_r2_wide", "C09_dist.c", ["-DIJRT", "-DRES=2", "-DIJB=400", "-DUPB=(1<<10)"], unwind=4, us=dict(LL, **{"localIjkToCell.0": 4}), unit_defs=UP7_DEFS_CHK, est=300, tier="thorough", mem="M", timeout=3400, core=False, bound="all origins of res 2, |i|,|j| <= 400"))
     return js
 
 
@@ -458,4 +462,109 @@ def c17(tier):
     for nh in (0, 1):
       js += with_witness(al("polyexp_h%d" % nh, ["-DPOLYEXP", "-DNH=%d" % nh], unwind=5, us=PL, stubs=PS, est=200, mem="M", timeout=2400, bound="triangle + <=1 hole, res <= 2 (incl. negative), any flags, capacity 2, <= 3 iterator steps"))
       js += with_witness(al("polymax_h%d" % nh, ["-DPOLYMAX", "-DNH=%d" % nh], unwind=5, us=PL, stubs=PS, est=400, mem="L", timeout=2400, tier="thorough", bound="triangle + <=1 hole, res <= 2 (incl. negative), any flags, <= 3 iterator steps"))
+    return js
+
+
+# ------------------------------------------------------------------------------------------- C19
+@prop("C19",
+      functions=["getIcosahedronFaces", "maxFaceCount", "makeDirectChild", "_h3ToFaceIjk", "_faceIjkToVerts", "_faceIjkPentToVerts", "_adjustOverageClassII", "_adjustPentVertOverage"],
+      bounds={"quick": "glue: any cell word, any vertex faces; vertex faces on the real code: all hexagons of res 0-1; end to end: res 0",
+              "thorough": "vertex faces res 0-2; end to end res 0-1"},
+      outside="agreement with nearest-face of interior points in lat/lng; resolutions above 2 for the lattice components (coordinate arithmetic)",
+      assumptions=["glue stubs return arbitrary faces 0-19; L-UP7 model in the component jobs"],
+      stubs=["GLUE: isPentagon, _h3ToFaceIjk, _faceIjkToVerts, _faceIjkPentToVerts, _adjustOverageClassII, _adjustPentVertOverage"])
+def c19(tier):
+    js = []
+    js += with_witness(J("glue_faces", "C19_faces.c", ["-DGLUE"], unwind=8, est=10, witness_expect=["overflow", "ok"],
+                         stubs={"h3Index": ["isPentagon", "_h3ToFaceIjk"], "faceijk": ["_faceIjkToVerts", "_faceIjkPentToVerts", "_adjustOverageClassII", "_adjustPentVertOverage"]},
+                         bound="any cell word, any vertex faces, any conversion error"))
+    js += up7_lemma(10)
+    for r in (0, 1, 2):
+        t = "quick" if r <= 1 else "thorough"
+        j = J("vertface_r%d" % r, "C19_faces.c", ["-DVERTFACE", "-DRES=%d" % r, "-DUPB=(1<<10)"], unwind=r + 2, unit_defs=UP7_DEFS, include_units=["faceijk"], est=100 + 200 * r, mem="M", tier=t, timeout=3000, bound="all hexagons of res %d x vertex pairs" % r)
+        js += with_witness(j, tier=t) if r == 1 else [j]
+    for r in (0, 1):
+        t = "thorough"
+        j = J("e2e_r%d" % r, "C19_faces.c", ["-DE2E", "-DRES=%d" % r, "-DUPB=(1<<10)"], unwind=max(r + 3, 8), us={"getIcosahedronFaces.0": 7, "getIcosahedronFaces.1": 7, "getIcosahedronFaces.2": 7}, unit_defs=UP7_DEFS, est=600, mem="X", tier=t, timeout=3400, core=False, bound="all valid cells of res %d" % r)
+        js += with_witness(j, tier=t) if r == 0 else [j]
+    return js
+
+
+# ------------------------------------------------------------------------------------------- C08
+@prop("C08",
+      functions=["cellToBoundary", "_faceIjkToCellBoundary", "_faceIjkPentToCellBoundary", "_faceIjkToVerts", "_faceIjkPentToVerts", "_adjustOverageClassII", "_adjustPentVertOverage", "_h3ToFaceIjk", "cellAreaKm2", "cellAreaM2", "vertexRotations", "h3NeighborRotations"],
+      bounds={"quick": "unit scaling of cellAreaKm2/M2: stub values k*2^s, |k|<=2^12, all error codes; vertex counts: all valid cells of res 0-1 with arbitrary projection / intersection results",
+              "thorough": "vertex counts res 0-3; shared corner (lattice identity across the shared edge): all hexagon pairs of res 0-1"},
+      outside="every statement about latitude/longitude values: orientation, centre inside, 1e-12 coincidence across face projections, cellAreaRads2, the 4*pi sum (trig; symbolic FP division in _v2dIntersect). Only the lattice / count / unit-scaling clauses are decided.",
+      assumptions=["S-GEO: _hex2dToGeo, _v2dIntersect, _v2dAlmostEquals return arbitrary values in the count jobs", "L-UP7 model"],
+      stubs=["cellAreaRads2 (scaling glue)", "_hex2dToGeo, _v2dIntersect, _v2dAlmostEquals (count jobs)"])
+def c08(tier):
+    js = []
+    js += with_witness(J("scale_area", "scale_glue.c", ["-DAREA"], unwind=3, est=20, stubs={"latLng": ["cellAreaRads2"]}, bound="stub values k*2^s, all error codes"))
+    js += up7_lemma(10)
+    CS = {"faceijk": ["_hex2dToGeo"], "vec2d": ["_v2dIntersect", "_v2dAlmostEquals"]}
+    for r in (0, 1, 2, 3):
+        t = "quick" if r <= 1 else "thorough"
+        j = J("count_r%d" % r, "C08_boundary.c", ["-DCOUNT", "-DRES=%d" % r, "-DUPB=(1<<10)"], mode="debug", checks="ub", unwind=r + 2, us={"_faceIjkToCellBoundary.0": 8, "_faceIjkPentToCellBoundary.0": 7, "_faceIjkPentToCellBoundary.1": 7},
+              unit_defs=UP7_DEFS, stubs=CS, est=200 + 300 * r, mem="L", tier=t, timeout=3400, core=(r <= 1), bound="all valid cells of res %d" % r)
+        js += with_witness(j, tier=t) if r == 1 else [j]
+    for r in (0, 1):
+        j = J("corner_r%d" % r, "C08_boundary.c", ["-DCORNER", "-DRES=%d" % r, "-DUPB=(1<<10)"], unwind=r + 2, us={"harness.0": 7}, unit_defs=UP7_DEFS, include_units=["vertex"], est=600 + 600 * r, mem="L", tier="thorough", timeout=3400, core=False,
+              bound="all hexagon cells of res %d with hexagon neighbour x corners" % r)
+        js += with_witness(j, tier="thorough") if r == 0 else [j]
+    return js
+
+
+# ------------------------------------------------------------------------------------------- C02
+@prop("C02",
+      functions=["latLngToCell", "_hex2dToCoordIJK", "_ijkToHex2d", "_ijkNormalize", "_faceIjkToH3 (C01/C03 jobs)"],
+      bounds={"quick": "argument validation and glue: all doubles (any bit pattern) x all int resolutions x any projection result; planar rounding: grid of step 2^-8 on a 8x8-cell window at the origin and at (4096, -2048)",
+              "thorough": "planar rounding windows at origins of magnitude 0, 2^6, 2^12, 2^18, 2^22 in all four quadrants, step 2^-10 at the origin"},
+      outside="closest face, gnomonic projection, the cellToBoundary oracle and the angular tolerance, poles/antimeridian, 'always succeeds for finite input' (needs the geometric bound on the projected point): all trig - no bit-precise libm model. The lattice->index leg is C01's _faceIjkToH3 closure and C03's round trip (res 0-3).",
+      assumptions=["ARGS job: _geoToFaceIjk and _faceIjkToH3 replaced by arbitrary-result stubs that assert their preconditions", "__builtin_isfinite modelled by __CPROVER_isfinited"],
+      stubs=["_geoToFaceIjk, _faceIjkToH3 (ARGS only)"])
+def c02(tier):
+    js = []
+    js += with_witness(J("args_glue", "C02_latlng.c", ["-DARGS"], unwind=3, est=10, stubs={"faceijk": ["_geoToFaceIjk"], "h3Index": ["_faceIjkToH3"]}, witness_expect=["non-finite", "finite"], bound="all doubles x all ints"))
+    wins = [(0, 0, "quick"), (4096, -2048, "quick")]
+    for m in (64, 4096, 262144, 4194304):
+        for sx, sy in ((1, 1), (-1, 1), (1, -1), (-1, -1)):
+            if (m * sx, m * sy) != (4096, -2048):
+                wins.append((m * sx, m * sy + (sy * 3), "thorough"))
+    for ox, oy, t in wins:
+        nm = "hex2d_%s_%s" % (str(ox).replace("-", "m"), str(oy).replace("-", "m"))
+        j = J(nm, "C02_latlng.c", ["-DHEX2D", "-DOX=%d" % ox, "-DOY=%d" % oy, "-DG=8", "-DWR=4"], unwind=3, est=200, tier=t, timeout=2400, units=["coordijk", "mathExtensions"], core=(t == "quick"),
+              bound="window origin (%d,%d), +-4 units, step 2^-8" % (ox, oy))
+        js += with_witness(j, tier=t) if (ox, oy) == (0, 0) else [j]
+    js.append(J("hex2d_0_0_fine", "C02_latlng.c", ["-DHEX2D", "-DOX=0", "-DOY=0", "-DG=10", "-DWR=8"], unwind=3, est=400, tier="thorough", timeout=3000, units=["coordijk", "mathExtensions"], core=False, bound="window origin (0,0), +-8 units, step 2^-10"))
+    return js
+
+
+# ------------------------------------------------------------------------------------------- C06
+CPL = dict({"compactCells.%d" % i: 9 for i in range(6)}, **{"compactCells.6": 3, "memcpy.0": 9, "memcpy.1": 9, "memcpy.2": 2, "memset.0": 9, "memset.1": 9, "memset.2": 2,
+            "uncompactCells.0": 9, "uncompactCells.1": 9, "uncompactCellsSize.0": 9, "iterStepChild.0": 4, "cellToChildren.0": 9, "_ipow.0": 6, "harness.0": 16, "harness.1": 16, "harness.2": 16, "harness.3": 16, "harness.4": 16, "harness.5": 16, "harness.6": 16, "harness.7": 16, "harness.8": 16})
+
+
+@prop("C06",
+      functions=["compactCells", "uncompactCells", "uncompactCellsSize", "cellToChildren", "cellToParent", "isPentagon", "_hasChildAtRes", "iterInitParent", "iterStepChild"],
+      bounds={"quick": "3 arbitrary distinct valid cells of res 1,5,15 in any order (no compaction possible): lossless round trip; complete child family of ANY parent of res 0,4,14 in any rotation, alone and with one foreign cell: compacts to the parent; uncompactCells capacity: 2 cells of res 0,7,14 x any capacity 0-14 x any target resolution <= res+1",
+              "thorough": "5 distinct cells; families at every parent resolution 0-14"},
+      outside="fully symbolic sets of >= 6 cells (hash-probe arithmetic; SAT-hard, DESIGN 2.4), more than one compaction round, sets of 10^5 cells",
+      assumptions=["own loop models of memcpy/memset (CBMC's built-ins mishandle symbolic lengths)"],
+      stubs=["memcpy, memset -> loop models"])
+def c06(tier):
+    js = []
+    for r in (1, 5, 15):
+        j = J("small3_r%d" % r, "C06_compact.c", ["-DSMALL", "-DN=3", "-DRES=%d" % r], unwind=17, us=CPL, est=40, mem="M", bound="3 distinct valid cells of res %d" % r)
+        js += with_witness(j) if r == 5 else [j]
+    js.append(J("small5_r3", "C06_compact.c", ["-DSMALL", "-DN=5", "-DRES=3"], unwind=17, us=CPL, est=200, mem="M", tier="thorough", timeout=2400, bound="5 distinct valid cells of res 3"))
+    for r in range(1, 16):
+        t = "quick" if r in (1, 5, 15) else "thorough"
+        j = J("family_r%d" % r, "C06_compact.c", ["-DFAMILY", "-DRES=%d" % r], unwind=17, us=CPL, est=100, mem="M", tier=t, timeout=2400, bound="children of any parent of res %d, any rotation" % (r - 1))
+        js += with_witness(j, tier=t) if r == 1 else [j]
+        j = J("familyx_r%d" % r, "C06_compact.c", ["-DFAMILY", "-DEXTRA", "-DRES=%d" % r], unwind=17, us=CPL, est=150, mem="M", tier=t, timeout=2400, bound="children of any parent of res %d + one foreign cell" % (r - 1))
+        js.append(j)
+    for r in (0, 7, 14):
+        j = J("cap_r%d" % r, "C06_compact.c", ["-DCAP", "-DRES=%d" % r], unwind=17, us=CPL, est=60, mem="M", bound="2 valid cells of res %d, capacity 0-14, target res <= %d" % (r, r + 1))
+        js += with_witness(j) if r == 7 else [j]
     return js
